@@ -549,6 +549,60 @@ func runAppxSignals() appxResult {
 	return res
 }
 
+// ---------------------------------------------------------------------------------------------
+// the HTTP surface of the real process (C14): what is reachable over the socket without a token
+
+func runAppxHTTP() appxResult {
+	var res appxResult
+	p := definition.PipelineDef{Concurrency: 1, Tasks: map[string]definition.TaskDef{"a": {Script: []string{"sleep 5"}}}}
+	for _, profiling := range []bool{false, true} {
+		extra := []string{}
+		if profiling {
+			extra = append(extra, "PRUNNER_ENABLE_PROFILING=true")
+		}
+		a := startApp(map[string]string{"pipelines.yml": yamlOfDefs(p)}, extra...)
+		get := func(method, path, tok string) (int, string) {
+			req, _ := http.NewRequest(method, "http://"+a.addr+path, strings.NewReader(`{"pipeline":"p"}`))
+			if tok != "" {
+				req.Header.Set("Authorization", "Bearer "+tok)
+			}
+			c := http.Client{Timeout: 5 * time.Second}
+			resp, err := c.Do(req)
+			if err != nil {
+				return 0, err.Error()
+			}
+			defer resp.Body.Close()
+			b, _ := io.ReadAll(io.LimitReader(resp.Body, 4096))
+			return resp.StatusCode, string(b)
+		}
+		for _, path := range []string{"/debug/pprof/", "/debug/pprof/cmdline", "/debug/pprof/heap", "/debug/pprof/goroutine?debug=1", "/debug/vars", "/debug/"} {
+			code, body := get("GET", path, "")
+			res.Cases++
+			res.Distinct++
+			if !profiling && code != 404 {
+				res.add("C14", "debug-route-reachable-without-profiling:"+path, fmt.Sprintf("real process started without --enable-profiling: GET %s answers %d (%s...)", path, code, head([]byte(body), 60)))
+			}
+		}
+		for _, r := range [][2]string{{"GET", "/pipelines/"}, {"GET", "/pipelines/jobs"}, {"POST", "/pipelines/schedule"}, {"GET", "/job/detail?id=" + jobUUID(1).String()}, {"GET", "/job/logs?id=" + jobUUID(1).String() + "&task=a"}, {"POST", "/job/cancel?id=" + jobUUID(1).String()}} {
+			for _, tok := range []string{"", "garbage", strings.TrimSuffix(validToken(), "x") + "y"} {
+				code, body := get(r[0], r[1], tok)
+				res.Cases++
+				res.Distinct++
+				if code != 401 {
+					res.add("C14", "real-process-route-without-valid-token:"+r[1], fmt.Sprintf("real process (profiling=%v): %s %s with an invalid token answers %d (%s...)", profiling, r[0], r[1], code, head([]byte(body), 60)))
+				}
+			}
+		}
+		code, body := a.api("GET", "/pipelines/jobs", "")
+		if code != 200 || !strings.Contains(string(body), "\"jobs\":[]") {
+			res.add("C14", "real-process-state-changed-by-unauthenticated-request", fmt.Sprintf("after the unauthenticated requests the job list is %d %s", code, head(body, 120)))
+		}
+		a.stop()
+	}
+	res.Samples = append(res.Samples, "real binary with and without profiling: /debug/* paths and every API route with none / garbage / tampered token over the socket")
+	return res
+}
+
 func runAppxUnit(u Unit) UnitResult {
 	res := UnitResult{Name: u.Name, Exhaustive: true, Unbounded: true}
 	if _, err := os.Stat(prunnerBin); err != nil {
@@ -562,6 +616,8 @@ func runAppxUnit(u Unit) UnitResult {
 		r = runAppxFieldEdits(u.Index, 8)
 	case strings.HasPrefix(u.Name, "appx/signals"):
 		r = runAppxSignals()
+	case strings.HasPrefix(u.Name, "appx/http-surface"):
+		r = runAppxHTTP()
 	}
 	res.Execs, res.States, res.Transitions, res.Outcomes = r.Cases, r.Cases, r.Cases, r.Distinct
 	res.Samples = r.Samples
